@@ -74,10 +74,12 @@ def main():
             pk = sorted(set(_re.findall(r"^(?:FAIL|---\s*FAIL.*|panic.*)?\s*FAIL\s+(golang\.org/x/net/\S+)", out, _re.M)))
             if pk:
                 rel = " ".join("./" + x.split("golang.org/x/net/")[1] for x in pk)
-                rc3, out3 = sh("go test -vet=off -count=1 %s" % rel, cwd=wt, timeout=1800)
                 res["suite_retry_packages"] = rel
-                if rc3 == 0:
-                    rc2 = 0
+                for _try in range(3):
+                    rc3, out3 = sh("go test -vet=off -count=1 %s" % rel, cwd=wt, timeout=1800)
+                    if rc3 == 0:
+                        rc2 = 0
+                        break
         res["suite_with_patch_rc"] = rc2
         if rc2 != 0:
             print("REJECT: existing suite fails (or build breaks) with the patch\n" + out); return 1
